@@ -273,8 +273,9 @@ def a_work(t):
           comp = abs(cr) + 2
           want_pd = z3.If(z3.And(cr != 0, comp < size), z3.IntVal(comp), size) if cr else size
           goals.append((f'announced shape {k} = [block size of axis {ax}, precond dim]', z3.And(term(sh[0]) == size, term(sh[1]) == want_pd)))
-          goals.append((f'_should_compress agrees with _precond_dim for slot {k}',
-                        term(sh[1]) != size if False else z3.BoolVal(True)))
+          sc_ = ds._should_compress(cr, blk[ax])
+          sc_t = term(sc_) if not isinstance(sc_, bool) else z3.BoolVal(sc_)
+          goals.append((f'_should_compress agrees with _precond_dim for slot {k}', sc_t == (term(sh[1]) != size)))
         got = slots[bi]
         goals.append((f'block {bi}: one slot per axis', len(got) == r))
         for ax in range(min(r, len(got))):
@@ -291,6 +292,10 @@ def a_work(t):
         shapes = pc.shapes_for_preconditioners()
         g = jnp.ones(shape)
         stats = pc.updated_statistics_from_grad([jnp.zeros((s[0], s[0])) for s in shapes], g, 1.0, 1.0)
+        for s_ in shapes:
+          if cr and bool(ds._should_compress(cr, s_[0])) != (ds._precond_dim(cr, s_[0]) != s_[0]):
+            return (f'_should_compress({cr}, {s_[0]}) = {bool(ds._should_compress(cr, s_[0]))} but _precond_dim({cr}, {s_[0]}) = '
+                    f'{ds._precond_dim(cr, s_[0])}: the root routine and the stored layout disagree on whether a {s_[0]}x{s_[0]} preconditioner is compressed')
         if len(stats) != len(shapes):
           return f'shape {shape} block {bs} {t["ptype"]}: {len(shapes)} preconditioners announced but {len(stats)} statistics produced'
         for k, (s, st) in enumerate(zip(shapes, stats)):
